@@ -373,6 +373,10 @@ fn first_diff(a: &str, b: &str) -> String {
 }
 
 /// (field name, detail) for every snapshot field that differs.
+/// Snapshot fields that a background task of the connection may move on its own (receiver SSRC
+/// learned from or reset by the media path).
+const BACKGROUND_FIELDS: [&str; 2] = ["receiver_ssrc", "receiver_rtx_ssrc"];
+
 fn snap_diff(before: &Snap, after: &Snap) -> Vec<(&'static str, String)> {
     let mut out = Vec::new();
     if before.state != after.state {
@@ -1282,7 +1286,7 @@ async fn run_inner(case: &Case, rec: &CaseRec, w: &mut World, all_fails: &mut Ve
     for (i, op) in case.ops.iter().enumerate() {
         let call = call_name(op);
         let allowed = machine(model, op);
-        let before = snapshot(&w.a);
+        let mut before = snapshot(&w.a);
 
         // ---- perform the call
         let mut edit_used: Option<(Edit, bool)> = None;
@@ -1324,6 +1328,15 @@ async fn run_inner(case: &Case, rec: &CaseRec, w: &mut World, all_fails: &mut Ve
                 };
                 // the partner may have been driven meanwhile; A must not have moved
                 let before2 = snapshot(&w.a);
+                // The media path learns / resets a receiver's SSRC in the background (an asynchronous
+                // effect of an earlier accepted call, e.g. once the direct transport has started):
+                // that is not the partner disturbing A; take the later snapshot as the baseline.
+                if before2 != before
+                    && snap_diff(&before, &before2).iter().all(|(f, _)| BACKGROUND_FIELDS.contains(f))
+                {
+                    rec.label("background:receiver-ssrc-moved-between-steps");
+                    before = before2.clone();
+                }
                 if before2 != before {
                     return Err(Fail::new(
                         "harness-partner-disturbed-a",
@@ -1461,10 +1474,10 @@ async fn run_inner(case: &Case, rec: &CaseRec, w: &mut World, all_fails: &mut Ve
                     rejected_after_accepted = true;
                 }
                 for (field, detail) in snap_diff(&before, &after) {
-                    fails.push(Fail::new(
-                        format!("err-changed:{}@{}[{}]:{}", call, at, err_variant(e), field),
-                        ctxmsg(&format!("the call returned Err but changed {}: {}", field, detail)),
-                    ));
+                    let sig = format!("err-changed:{}@{}[{}]:{}", call, at, err_variant(e), field);
+                    let msg = ctxmsg(&format!("the call returned Err but changed {}: {}", field, detail));
+                    // a field the media path also moves in the background: counts only if it repeats alone
+                    fails.push(if BACKGROUND_FIELDS.contains(&field) { Fail::timing(sig, msg) } else { Fail::new(sig, msg) });
                 }
             }
         }
